@@ -649,3 +649,35 @@ func VerifC13PrinterDocuments() {
 	verifAssert(verifEqStr(vDump(got), vDump(twin)), "C13/printed-document-differs-from-explode "+label)
 	verifCover("C13/printer-docs/end")
 }
+
+// VerifC13AliasKeys: a map key written as an alias (`m: {*k : 1, y: 2}` with `a: &k KEY`) is the key KEY on every read
+// route: `.m.KEY` yields 1 whether the alias is followed by the traversal or resolved by explode first; the anchor's
+// NAME is no key of the map.
+func VerifC13AliasKeys() {
+	key := verifStrN("key", 1, "ad")
+	q := verifStrN("q", 1, "ad")
+	verifAssume(!verifEqStr(key, "y"))
+	route := verifChoice("route", 5)
+	build := func() *yaml.Node {
+		k := vStr(key)
+		k.Anchor = "k"
+		return vMap(vStr("a"), k, vStr("m"), vMap(&yaml.Node{Kind: yaml.AliasNode, Value: "k", Alias: k}, vInt("1"), vStr("y"), vInt("2")))
+	}
+	want := ""
+	if verifConcreteBool(verifEqStr(q, key)) {
+		want = "1"
+	} else if verifConcreteBool(verifEqStr(q, "y")) {
+		want = "2"
+	}
+	c13Target = "m"
+	got, ok := c13Read(route, build(), q)
+	c13Target = "H"
+	label := c13RouteNames[route] + " alias-key"
+	verifAssert(ok, "C13/read-error "+label)
+	if !ok {
+		return
+	}
+	verifObserve("got", got)
+	verifAssert(verifEqStr(got, want), "C13/resolves-per-merge-rules "+label)
+	verifCover("C13/alias-keys/end")
+}
